@@ -12,7 +12,8 @@ Import ListNotations.
    whether stop() returned in the meantime *)
 (* SStartFail: start() while a foreign socket holds the port: the call raises unless the server is already
    running (then it returns at once); observation: did it raise *)
-Inductive sop := SStart | SStop | SRequest | STick | SStopBusy | SStartFail.
+(* SStartThreadFail: start() while the OS refuses a new thread: bind succeeds, Thread.start() raises *)
+Inductive sop := SStart | SStop | SRequest | STick | SStopBusy | SStartFail | SStartThreadFail.
 
 Section Seq.
   Variables (G PC OP : Type).
@@ -21,7 +22,7 @@ Section Seq.
   Variable mstep : G -> option G.
   Variable is_idle : PC -> bool.
   Variable idle : PC.
-  Variables (op_start op_stop op_startf : OP).
+  Variables (op_start op_stop op_startf op_startt : OP).
   Variable view : G -> list nat.       (* [a call raised / internal error; listening socket open; main thread alive] *)
   Variable busy : G -> G.              (* the main thread moves into the request handler (if it is in its loop) *)
   Variable alive : G -> bool.          (* the main thread is alive *)
@@ -73,6 +74,10 @@ Section Seq.
                     | Some g' => Some (g', view g' ++ [if alive gl then 0 else 1; 0])
                     | None => None
                     end
+    | SStartThreadFail => match call gl op_startt with
+                          | Some g' => Some (g', view g' ++ [if alive gl then 0 else 1; 0])
+                          | None => None
+                          end
     | SStopBusy => match call_busy gl with
                    | Some (g', early) => Some (g', view g' ++ [if early then 1 else 0; 0])
                    | None => None
@@ -95,7 +100,7 @@ Definition spec_next (r : bool) (o : sop) : bool :=
 Definition b2 (b : bool) : nat := if b then 1 else 0.
 Definition spec_obs (r : bool) (o : sop) : list nat :=
   let r' := spec_next r o in
-  [0; b2 r'; b2 r'; match o with SRequest => b2 r' | SStartFail => b2 (negb r) | _ => 0 end; 0].
+  [0; b2 r'; b2 r'; match o with SRequest => b2 r' | SStartFail | SStartThreadFail => b2 (negb r) | _ => 0 end; 0].
 Fixpoint spec_run (r : bool) (h : list sop) : list (list nat) :=
   match h with
   | [] => []
